@@ -27,8 +27,8 @@ func (*C07) Plan(tier string) orch.Plan {
 }
 
 type c07Gen struct {
-	r   *scen.Rng
-	val int64
+	r    *scen.Rng
+	val  int64
 	keys []string
 }
 
